@@ -35,3 +35,114 @@ contract(
         E("identity-when-within-cap", "implies(1 + x[0] <= s and 1 + x[0] >= 1 / s, result == 1)", ["C20", "C21"]),
     ],
 )
+
+
+# ---------------------------------------------------------------------------------------------
+# EP message passing (mode real) -- C21 (bookkeeping), C05 (properness / cap preserved), C35 (asserts)
+#
+# Ghost state: factors.S[n] = sum of all messages addressed to node n, mirrored at every write to a factor row.
+# The central invariant is  posterior[n] == scale[n] * S[n]  for every free node.
+TINY = 1.4916681462400413e-154  # np.sqrt(np.finfo(np.float64).tiny), a module constant that literal_eval cannot read
+
+contract(
+    "variational._rescale_factors", mode="real", assumed=True,
+    assigns=["factors"], assigns_fields={"factors": ["edge", "block", "node", "scale", "S"]},
+    requires=[
+        "forall(e, 0, factors.edge.shape[0], 0 <= factors._p[e] and factors._p[e] < len(factors.scale) and 0 <= factors._c[e] and factors._c[e] < len(factors.scale))",
+        "forall(b, 0, factors.block.shape[0], 0 <= factors._j[b] and factors._j[b] < len(factors.scale) and 0 <= factors._k[b] and factors._k[b] < len(factors.scale))",
+    ],
+    ensures=[
+        "forall(n, 0, len(factors.scale), factors.scale[n] == 1)",
+        "forall(e, 0, factors.edge.shape[0], forall(k, 0, 2, "
+        "factors.edge[e, 0, k] == old(factors).edge[e, 0, k] * old(factors).scale[factors._p[e]] and "
+        "factors.edge[e, 1, k] == old(factors).edge[e, 1, k] * old(factors).scale[factors._c[e]]))",
+        "forall(b, 0, factors.block.shape[0], forall(k, 0, 2, "
+        "factors.block[b, 0, k] == old(factors).block[b, 0, k] * old(factors).scale[factors._j[b]] and "
+        "factors.block[b, 1, k] == old(factors).block[b, 1, k] * old(factors).scale[factors._k[b]]))",
+        "forall(n, 0, len(factors.scale), forall(k, 0, 2, "
+        "factors.node[n, 0, k] == old(factors).node[n, 0, k] * old(factors).scale[n] and "
+        "factors.node[n, 1, k] == old(factors).node[n, 1, k] * old(factors).scale[n]))",
+        # ghost: every message addressed to n is multiplied by scale[n], hence so is their sum (linearity of the sum)
+        "forall(n, 0, len(factors.scale), forall(k, 0, 2, factors.S[n, k] == old(factors).S[n, k] * old(factors).scale[n]))",
+    ],
+    notes="assumed inside the loop proofs; its own body (vectorised 3-d updates with np.newaxis) is outside the engine's "
+          "subset and is exercised by the bounded gauge test of C21",
+)
+
+N_, E_ = "len(posterior)", "len(edges_parent)"
+FREE = "not fixed[{n}]"
+ZERO2 = "{x}[0] == 0 and {x}[1] == 0"
+PROP2 = "{x}[0] + 1 > 0 and {x}[1] > 0"
+INV_BOOK0 = f"forall(n, 0, {N_}, implies(not fixed[n], posterior[n, 0] == scale[n] * factors.S[n, 0]))"
+INV_BOOK1 = f"forall(n, 0, {N_}, implies(not fixed[n], posterior[n, 1] == scale[n] * factors.S[n, 1]))"
+INV_SCALE = f"forall(n, 0, {N_}, scale[n] > 0)"
+INV_PROPER = f"forall(n, 0, {N_}, implies(not fixed[n], (posterior[n, 0] == 0 and posterior[n, 1] == 0) or (posterior[n, 0] + 1 > 0 and posterior[n, 1] > 0)))"
+INV_CAP = (f"forall(n, 0, {N_}, implies(not fixed[n], (posterior[n, 0] == 0 and posterior[n, 1] == 0) or "
+           f"(1 + posterior[n, 0] <= max_shape and 1 + posterior[n, 0] >= 1 / max_shape)))")
+INV_ZERO = (f"forall(e, 0, {E_}, implies(posterior[edges_parent[e], 0] == 0 and posterior[edges_parent[e], 1] == 0, "
+            "factor[e, 0, 0] == 0 and factor[e, 0, 1] == 0) and "
+            "implies(posterior[edges_child[e], 0] == 0 and posterior[edges_child[e], 1] == 0, "
+            "factor[e, 1, 0] == 0 and factor[e, 1, 1] == 0))")
+INV_FIXED = f"forall(n, 0, {N_}, implies(fixed[n], posterior[n, 0] == old(posterior)[n, 0] and posterior[n, 1] == old(posterior)[n, 1]))"
+
+
+def _entry(clause):
+    """The same clause phrased over the parameters (before the locals `fixed`, `scale`, `factor` exist);
+    FACT is bound per variant to factors.edge / factors.block."""
+    return (clause.replace("fixed[n]", "(constraints[n, 0] == constraints[n, 1])")
+            .replace("scale[n]", "factors.scale[n]").replace("factor[", "FACT["))
+
+
+PL_REQUIRES = [
+    f"len(constraints) == {N_}", f"len(edges_child) == {E_}", f"len(likelihoods) == {E_}", f"len(lognorm) == {E_}",
+    f"len(factors.scale) == {N_}", f"FACT.shape[0] == {E_}",
+    f"forall(e, 0, {E_}, 0 <= edges_parent[e] and edges_parent[e] < {N_} and 0 <= edges_child[e] and edges_child[e] < {N_})",
+    f"forall(k, 0, len(edge_order), 0 <= edge_order[k] and edge_order[k] < {E_})",
+    "max_shape > 1", "0 < min_step and min_step < 1",
+    "forall(e, 0, factors.edge.shape[0], 0 <= factors._p[e] and factors._p[e] < len(factors.scale) and 0 <= factors._c[e] and factors._c[e] < len(factors.scale))",
+    "forall(b, 0, factors.block.shape[0], 0 <= factors._j[b] and factors._j[b] < len(factors.scale) and 0 <= factors._k[b] and factors._k[b] < len(factors.scale))",
+    # the edge pass never sees a self-loop (singleton blocks with a single parent only occur in the block pass)
+    f"unphased or forall(e, 0, {E_}, edges_parent[e] != edges_child[e])",
+] + [_entry(c) for c in (INV_BOOK0, INV_BOOK1, INV_SCALE, INV_PROPER, INV_CAP, INV_ZERO)]
+
+PL_ENSURES = [
+    E("C21-posterior-shape-equals-scale-times-sum-of-messages", _entry(INV_BOOK0), ["C21"]),
+    E("C21-posterior-rate-equals-scale-times-sum-of-messages", _entry(INV_BOOK1), ["C21"]),
+    E("scale-positive", _entry(INV_SCALE), ["C21", "C05"]),
+    E("C05-free-posteriors-zero-or-proper", _entry(INV_PROPER), ["C05", "C21"]),
+    E("C05-free-posteriors-capped", _entry(INV_CAP), ["C05"]),
+    E("zero-posterior-has-zero-messages", _entry(INV_ZERO), ["C21", "C05"]),
+    E("C21-fixed-nodes-untouched", _entry(INV_FIXED), ["C21"]),
+]
+
+GHOST_PL = [
+    ("scale[p] *= parent_eta", "assert_(posterior[p, 0] == scale[p] * factors.S[p, 0])\nassert_(posterior[p, 1] == scale[p] * factors.S[p, 1])"),
+    ("scale[c] *= child_eta", "assert_(posterior[c, 0] == scale[c] * factors.S[c, 0])\nassert_(posterior[c, 1] == scale[c] * factors.S[c, 1])"),
+    # after the (rare) in-loop renormalisation the loop invariants are re-established and everything else forgotten
+    ("_rescale_factors(factors)", "recut()"),
+    ("before:factor[i, LEAFWARD] *= 1.0 - ", "g_l = factor[i, LEAFWARD] * 1.0"),
+    ("factor[i, LEAFWARD] += (posterior[c] - child_cavity) / scale[c]",
+     "factors.S[c] += factor[i, LEAFWARD] - g_l\nassert_(posterior[c, 0] == scale[c] * factors.S[c, 0])\nassert_(posterior[c, 1] == scale[c] * factors.S[c, 1])"),
+    ("before:factor[i, ROOTWARD] *= 1.0 - ", "g_r = factor[i, ROOTWARD] * 1.0"),
+    ("factor[i, ROOTWARD] += (posterior[p] - parent_cavity) / scale[p]",
+     "factors.S[p] += factor[i, ROOTWARD] - g_r\nassert_(posterior[p, 0] == scale[p] * factors.S[p, 0])\nassert_(posterior[p, 1] == scale[p] * factors.S[p, 1])"),
+]
+
+contract(
+    "variational.ExpectationPropagation.propagate_likelihood", mode="real", name_stores=True,
+    shapes={"likelihoods": [None, 2], "constraints": [None, 2], "posterior": [None, 2]},
+    consts={"TINY": TINY},
+    variants=[{"unphased": False, "__bind": {"FACT": "factors.edge"}}, {"unphased": True, "__bind": {"FACT": "factors.block"}}],
+    assigns=["posterior", "factors", "lognorm"],
+    requires=PL_REQUIRES,
+    ensures=PL_ENSURES,
+    ghost_after=GHOST_PL,
+    loops={0: Loop("for i in edge_order", counter="kk",
+                   invariants=[INV_BOOK0, INV_BOOK1, INV_SCALE, INV_PROPER, INV_CAP, INV_ZERO, INV_FIXED,
+                               f"len(scale) == {N_}"],
+                   # the bookkeeping identities need only themselves and scale > 0 (they hold whatever the
+                   # projections return); scale > 0 needs properness (the cap factor is positive)
+                   uses={0: [2, 7], 1: [2, 7], 6: [7], 7: []})},
+    notes="A-REAL. Verified against the VERIFIED contracts of _damp, _rescale and the six projection wrappers and the "
+          "ASSUMED contract of _rescale_factors. The ghost sum S is mirrored at the four factor-update statements.",
+)
